@@ -271,7 +271,9 @@ func run(c *core.Ctx) error {
 		"distinct_nontrivial = distinct (bolt epochs+files, disk listing, root files, reader files, copy files) observations in which some needed-file set is non-empty")
 	c.Assume("Linux: an unlinked file stays readable through an existing mmap; the check looks at directory entries")
 	// 1. the model decides
-	cfgs := []string{"ScorchDisk_mc_disk.cfg", "ScorchDisk_mc_reader.cfg"}
+	// builder: the index was made by the offline builder (the id of its segment is not the
+	// number of its file) and is then written, merged, purged and copied online
+	cfgs := []string{"ScorchDisk_mc_disk.cfg", "ScorchDisk_mc_reader.cfg", "ScorchDisk_mc_builder.cfg"}
 	if c.Thorough() {
 		// async release of epochs (2.1M states), the larger bounds (1.0M) and the in-memory
 		// merge of the persister with unsafe batches (1.6M): about 2 minutes each on 8 workers
@@ -369,19 +371,23 @@ func run(c *core.Ctx) error {
 		}
 		c.Logf("%d TLC-generated schedules executed (safe=%v): %d observations", len(scheds), safe, nobs)
 	}
-	for _, useCopy := range []bool{false, true} {
-		dres, err := sx.DirectedHeldEpoch(c.TempDir("c12d"), c.Seed, useCopy)
+	for _, mode := range []string{"directed-reader", "directed-copy", "directed-copy-builder-base"} {
+		useCopy := mode != "directed-reader"
+		var dres *sx.DirectedResult
+		var err error
+		if mode == "directed-copy-builder-base" {
+			dres, err = sx.DirectedHeldEpochBuilt(c.TempDir("c12d"), c.Seed)
+		} else {
+			dres, err = sx.DirectedHeldEpoch(c.TempDir("c12d"), c.Seed, useCopy)
+		}
 		if err != nil {
 			return err
 		}
 		if dres.CopyErr != nil {
-			c.Violation("c12/copy-failed", fmt.Sprintf("directed: CopyTo failed although its files were scheduled: %v", dres.CopyErr), map[string]any{"scenario": "directed-copy"})
+			c.Violation("c12/copy-failed", fmt.Sprintf("%s: CopyTo failed although its files were scheduled: %v", mode, dres.CopyErr), map[string]any{"scenario": mode})
 		}
 		recs := dres.Samples
-		name := "directed-reader"
-		if useCopy {
-			name = "directed-copy"
-		}
+		name := mode
 		c.Logf("scenario %s: %d observations", name, len(recs))
 		for _, r := range recs {
 			all = append(all, r)
